@@ -23,7 +23,7 @@ from fractions import Fraction
 
 from translate import c12 as T
 from vlib import driver
-from vlib.content import num
+from vlib.content import num, rat_str
 from vlib.framework import REPO
 
 PROPS = ["MxlVerif.Props.C12"]
@@ -813,9 +813,9 @@ def gen_content(rng, *, rational=False, p_odd=0.25, stiff=False):
                 st.append([c, {"c": str(rng.choice([-2, -1, 1, 2, "1/2", 3]))}])
             elif r < 0.9:
                 ponly = pnames + [d for d, g in derived if all(a in pnames for a in g["args"])]
-                st.append([c, _mk(rng, rng.choice(["twice", "add", "mul", "constant"]), ponly)])
+                st.append([c, _mk(rng, rng.choice(["twice", "add", "mul", "constant", "minus", "moiety_1s", "minus"]), ponly)])
             else:
-                st.append([c, _mk(rng, rng.choice(["twice", "add", "mul", "constant"]), pool)])
+                st.append([c, _mk(rng, rng.choice(["twice", "add", "mul", "constant", "minus", "moiety_1s", "minus"]), pool)])
         f["st"] = st
         rxns.append([f"r{i}", f])
     # every variable gets an equation (unless this is an odd model, sometimes)
@@ -944,6 +944,10 @@ def corpus():
         # state-dependent coefficient, ordinary rate
         ("dyn-coef", lambda: base(
             rxns=[["r0", rxn("mass_action_1s", ["v0", "c1"], [["v0", fn_ref("mul", ["v1", "c0"])], ["v1", {"c": "1"}]])]])),
+        # state-dependent and parameter-computed coefficients whose functions are NOT symmetric in their arguments
+        ("dyn-coef-asym", lambda: base(
+            rxns=[["r0", rxn("mass_action_1s", ["v0", "c1"], [["v0", fn_ref("minus", ["v1", "c0"])],
+                                                                ["v1", fn_ref("moiety_1s", ["c0", "c1"])]])]])),
         # parameter defined by an initial assignment, declared first, not used by any equation
         ("ia-par-unused", lambda: base(
             pars=[["q0", {"ia": fn_ref("twice", ["c0"])}], ["c0", {"v": "2"}], ["c1", {"v": "3"}]],
@@ -1129,7 +1133,16 @@ def judge_case(ctx, case, R, M, content=None, step=""):
         psub = {"content": case["content"], "points": [p], **extra}
         mp_ = None if M is None else M["points"][i]
         # numeric right-hand side: real vs numeric core (C01's tie, repeated on these models)
-        if mp_ is not None:
+        # a point at which a denominator of the (specification's) equations vanishes is outside the model: Python raises
+        # ZeroDivisionError or, in floats, divides by a rounding residue (huge values where exact arithmetic has 0/0)
+        # (the numeric core is C01's subject; here it is compared only where the order-free specification has values:
+        # the model converts and no denominator vanishes -- for a model that does not convert nothing tells a vanishing
+        # denominator from a real difference)
+        zero_den = mp_ is not None and mp_["s"] is None
+        if zero_den and not exact:
+            ctx.hist["numeric_rhs_not_judged_rational_without_spec_values"] = \
+                ctx.hist.get("numeric_rhs_not_judged_rational_without_spec_values", 0) + 1
+        if mp_ is not None and not (zero_den and not exact):
             r_rhs = R["rhs"][i]
             s_rhs = mp_["rhs"] if "ok" in mp_["rhs"] else {"err": [mp_["rhs"]["err"][0]] + mp_["rhs"]["err"][1:2]}
             if "ok" in r_rhs and "ok" in s_rhs:
@@ -1262,6 +1275,7 @@ def run(ctx):
         if len(ctx.violations) > 20:
             break
     history_stratum(ctx, rng)
+    substitution_stratum(ctx, rng)
     piecewise_stratum(ctx)
     # trajectories: quick = the two corpus models that convert; thorough = generated ones incl. stiff
     tcases = [dict(c, t_end=2) for c in corpus() if c["tag"] in ("jac-closure", "decl-order")]
@@ -1277,6 +1291,139 @@ def run(ctx):
     ctx.extra_cov["trajectory_runs_in_which_the_Jacobian_was_called"] = used
     if used == 0:
         ctx.violation({"trajectories": len(tcases)}, "no trajectory run ever called the Jacobian", "trajectory stratum is vacuous")
+
+
+# --------------------------------------------------------------------------- symbol substitution (substSym vs sympy)
+
+SUB_SYMS = ["a", "b", "c", "d"]
+
+
+def gen_symexpr(rng, depth):
+    if depth == 0 or rng.random() < 0.25:
+        if rng.random() < 0.7:
+            return ["s", rng.choice(SUB_SYMS)]
+        return ["c", str(rng.choice([0, 1, 2, 3, -1, "1/2", "3/2"]))]
+    r = rng.random()
+    if r < 0.6:
+        return [rng.choice(["+", "-", "*"]), gen_symexpr(rng, depth - 1), gen_symexpr(rng, depth - 1)]
+    if r < 0.75:
+        return ["/", gen_symexpr(rng, depth - 1), gen_symexpr(rng, depth - 1)]
+    if r < 0.85:
+        return ["neg", gen_symexpr(rng, depth - 1)]
+    return ["pow", gen_symexpr(rng, depth - 1), rng.choice([0, 1, 2, 3])]
+
+
+def _sym_to_sympy(e):
+    import sympy
+
+    t = e[0]
+    if t == "s":
+        return sympy.Symbol(e[1])
+    if t == "c":
+        q = Fraction(e[1])
+        return sympy.Rational(q.numerator, q.denominator)
+    if t == "neg":
+        return -_sym_to_sympy(e[1])
+    if t == "pow":
+        return _sym_to_sympy(e[1]) ** e[2]
+    a, b = _sym_to_sympy(e[1]), _sym_to_sympy(e[2])
+    return {"+": a + b, "-": a - b, "*": a * b, "/": a / b}[t]
+
+
+class _Undef(Exception):
+    pass
+
+
+def _sym_eval(e, env):
+    """own evaluator over Fractions; a vanishing denominator anywhere -> _Undef (like `denOKb`)"""
+    t = e[0]
+    if t == "s":
+        return env[e[1]]
+    if t == "c":
+        return Fraction(e[1])
+    if t == "neg":
+        return -_sym_eval(e[1], env)
+    if t == "pow":
+        return _sym_eval(e[1], env) ** e[2]
+    a, b = _sym_eval(e[1], env), _sym_eval(e[2], env)
+    if t == "/":
+        if b == 0:
+            raise _Undef
+        return a / b
+    return {"+": a + b, "-": a - b, "*": a * b}[t]
+
+
+def subst_worker(case):
+    """R = sympy: `expr.subs(sigma, simultaneous=True)` evaluated exactly at the environments"""
+    import sympy
+
+    e = _sym_to_sympy(case["e"])
+    sig = {sympy.Symbol(k): _sym_to_sympy(v) for k, v in case["sigma"]}
+    try:
+        r = e.subs(sig, simultaneous=True)
+    except Exception as ex:  # noqa: BLE001
+        return {"err": type(ex).__name__}
+    out = []
+    for env in case["envs"]:
+        try:
+            v = r.subs({sympy.Symbol(k): sympy.Rational(Fraction(q).numerator, Fraction(q).denominator) for k, q in env},
+                       simultaneous=True)
+            v = sympy.nsimplify(v) if not v.is_Rational else v
+            out.append(rat_str(Fraction(int(v.p), int(v.q))) if v.is_Rational else str(v))
+        except Exception as ex:  # noqa: BLE001
+            out.append("err:" + type(ex).__name__)
+    return {"vals": out}
+
+
+def substitution_stratum(ctx, rng):
+    """`substSym` (Model/C12Sym.lean, theorem C12_subst_syms) behind the driver against sympy's simultaneous substitution:
+    random expressions over four symbols, substitutions that permute symbols or replace them by expressions mentioning
+    the others, exact evaluation.  S = the substitution lemma itself: e evaluated where every symbol n has the value of
+    sigma(n)."""
+    cases = []
+    fixed = [
+        (["-", ["s", "a"], ["s", "b"]], [["a", ["s", "b"]], ["b", ["s", "a"]]]),
+        (["/", ["s", "a"], ["+", ["s", "b"], ["s", "c"]]], [["a", ["*", ["s", "b"], ["s", "c"]]], ["b", ["s", "a"]], ["c", ["s", "b"]]]),
+        (["pow", ["+", ["s", "a"], ["s", "d"]], 2], [["a", ["s", "d"]], ["d", ["neg", ["s", "a"]]]]),
+    ]
+    for e, sg in fixed:
+        cases.append({"e": e, "sigma": sg})
+    for _ in range(ctx.n(150, 3000)):
+        e = gen_symexpr(rng, rng.randint(1, 4))
+        ks = rng.sample(SUB_SYMS, rng.randint(1, 4))
+        if rng.random() < 0.4:
+            perm = ks[:]
+            rng.shuffle(perm)
+            sg = [[k, ["s", p]] for k, p in zip(ks, perm)]
+        else:
+            sg = [[k, gen_symexpr(rng, rng.randint(0, 2))] for k in ks]
+        cases.append({"e": e, "sigma": sg})
+    for c in cases:
+        c["envs"] = [[[k, str(rng.choice([1, 2, 3, 5, -1, "1/2", 7]))] for k in SUB_SYMS] for _ in range(3)]
+    Rs = pool().map(subst_worker, cases, chunksize=16)
+    Ms = driver.call_batch([{"op": "c12", "subst": c} for c in cases]) if ctx.driver_ok else [None] * len(cases)
+    for c, R, M in zip(cases, Rs, Ms):
+        sg = dict((k, v) for k, v in c["sigma"])
+        ctx.count(c, f"substitution-{len(c['sigma'])}", True)
+        for i, env in enumerate(c["envs"]):
+            ev = {k: Fraction(q) for k, q in env}
+            try:
+                env2 = {k: (_sym_eval(sg[k], ev) if k in sg else ev[k]) for k in SUB_SYMS}
+                s_ = rat_str(_sym_eval(c["e"], env2))
+            except _Undef:
+                ctx.hist["subst_point_skipped_zero_denominator"] = ctx.hist.get("subst_point_skipped_zero_denominator", 0) + 1
+                continue
+            m_ = None if M is None else M["vals"][i]
+            if "err" in R:
+                ctx.violation(dict(c, envs=[env]), R, "sympy substitution raised")
+                continue
+            r_ = R["vals"][i]
+            if m_ is None and M is not None:
+                # the substituted expression has a vanishing denominator that sympy cancelled (x/x): more defined, skip
+                ctx.hist["subst_point_model_undefined"] = ctx.hist.get("subst_point_model_undefined", 0) + 1
+                continue
+            ctx.hist["subst_point_judged"] = ctx.hist.get("subst_point_judged", 0) + 1
+            ctx.judge(dict(c, envs=[env]), r_, s_, m_, what="symbol substitution: sympy subs(simultaneous) = substSym = e at sigma's values")
 
 
 def history_stratum(ctx, rng):
@@ -1382,6 +1529,11 @@ def piecewise_stratum(ctx):
 
 def replay(ctx, rp):
     case = rp["case"]
+    if "sigma" in case:
+        R = subst_worker(case)
+        M = driver.call_batch([{"op": "c12", "subst": case}])[0] if ctx.driver_ok else None
+        print("R =", R, "\nM =", M)
+        return
     if "hist" in case:
         case = {"content": case["content"], "hist": case["hist"]}
         R = hist_worker(case)
